@@ -47,7 +47,5 @@ Print Assumptions C05_commit_order.
 Theorem C05_only_intact : forall recs size m',
   scan recs size [] [] = ScanOk m' ->
   forall id cs, In (id, Some cs) m' -> intact_in recs id cs.
-Proof.
-  intros recs size m' H id cs Hin. destruct (scan_only_intact recs size [] [] m' H id cs Hin) as [[]|Hi]. exact Hi.
-Qed.
+Proof. exact scan_only_intact_from_empty. Qed.
 Print Assumptions C05_only_intact.
